@@ -46,6 +46,7 @@ type Thread struct {
 	handoff   *handoff
 	name      string
 	depth     int
+	yielding  bool
 }
 
 type handoff struct {
@@ -147,16 +148,27 @@ func (s *Sched) park(th *Thread) {
 
 func (s *Sched) enabled(cur *Thread) []*Thread {
 	var out []*Thread
-	if cur != nil && !cur.done && (cur.ready == nil || cur.ready()) {
+	curOK := cur != nil && !cur.done && (cur.ready == nil || cur.ready())
+	if curOK && !cur.yielding {
 		out = append(out, cur)
 	}
-	for _, t := range s.threads {
+	// round-robin order starting after cur
+	n := len(s.threads)
+	start := 0
+	if cur != nil {
+		start = cur.id + 1
+	}
+	for k := 0; k < n; k++ {
+		t := s.threads[(start+k)%n]
 		if t == cur || t.done {
 			continue
 		}
 		if t.ready == nil || t.ready() {
 			out = append(out, t)
 		}
+	}
+	if curOK && cur.yielding {
+		out = append(out, cur) // at an explicit yield the default is to let the others run first
 	}
 	return out
 }
@@ -215,7 +227,12 @@ func (s *Sched) pick(cur *Thread) *Thread {
 		if len(en) == 0 && len(timers) == 0 {
 			return nil
 		}
-		curEnabled := len(en) > 0 && en[0] == cur
+		curEnabled := false
+		for _, t := range en {
+			if t == cur {
+				curEnabled = true
+			}
+		}
 		n := len(en) + len(timers)
 		// Delay-bounded scheduling: the default schedule keeps the current thread running, otherwise takes the
 		// first enabled thread (lowest id); each deviation from it (a "delay") is a recorded nondeterministic
@@ -460,4 +477,11 @@ func (s *Sched) newTimer(periodic bool, label string) *Timer {
 	ch.timer = t
 	s.timers = append(s.timers, t)
 	return t
+}
+
+// yield is an explicit scheduling point at which other runnable threads go first by default.
+func (s *Sched) yield(th *Thread) {
+	th.yielding = true
+	s.syncPoint(th, nil)
+	th.yielding = false
 }
